@@ -36,6 +36,7 @@ type caseDef struct {
 	P9a    *p9aCase  `json:"p9a,omitempty"`    // part 9a
 	RShard *p1bShard `json:"rshard,omitempty"` // part 6 (= part 1b: import matching against re-exports)
 	P10    *p10Shard `json:"p10,omitempty"`    // part 10 (segment lists x feature configuration), with Engine
+	P11    *p11Shard `json:"p11,omitempty"`    // part 11 (import limits around the current size of grown tables / memories)
 }
 
 var p2Configs = []gcfg{{"EI", false}, {"EIJ", false}, {"EI", true}, {"EIJ", true}}
@@ -81,6 +82,10 @@ func buildCases(tier string, u *universe) (cs []caseDef) {
 	}
 	for a := range p9Alphabet() {
 		cs = append(cs, caseDef{Part: 9, Prefix: []int{a}, Depth: 3})
+	}
+	for _, sh := range p11Shards(tier) {
+		sh := sh
+		cs = append(cs, caseDef{Part: 11, P11: &sh})
 	}
 	for a := range p8Alphabet() {
 		cs = append(cs, caseDef{Part: 8, Prefix: []int{a}, Depth: 3})
@@ -356,6 +361,40 @@ func (cs *childState) runCase(cd caseDef) caseResult {
 			b, _ := json.Marshal(v)
 			res.Viols = append(res.Viols, b)
 		}
+	case 11:
+		if cs.p1 == nil {
+			cs.p1 = newP1Env(cs.u)
+		}
+		pairs := map[uint64]struct{}{}
+		cases := p11Cases(*cd.P11)
+		for _, engine := range engineNames {
+			engine := engine
+			gv := p11Run(cs.p1.rts[engine], engine, *cd.P11, cases, func(c p11Case, r p1Result) {
+				res.Evals++
+				outcome, sig, what := p11Judge(c, engine, r)
+				res.Outcomes["p11:"+outcome]++
+				pairs[h64(fmt.Sprintf("p11|%v|%s|%s|%s", c.Shard.Host, p11Current(c.Shard, c.Name), p11Declared(c.Shard, c.Name), c.Import))] = struct{}{}
+				if sig == "" {
+					return
+				}
+				if !cs.confirmed["11|"+engine+"|"+sig] {
+					r2, _ := replayP11(c, engine)
+					if _, sig2, _ := p11Judge(c, engine, r2); sig2 != sig {
+						res.Flaky = append(res.Flaky, fmt.Sprintf("part11 %s: %s not reproduced in a fresh runtime (%q)", sig, what, sig2))
+						return
+					}
+					cs.confirmed["11|"+engine+"|"+sig] = true
+				}
+				b, _ := json.Marshal(map[string]any{"sig": sig, "what": what, "case": c, "engine": engine})
+				res.Viols = append(res.Viols, b)
+			})
+			for _, g := range gv {
+				b, _ := json.Marshal(map[string]any{"sig": g.Sig, "what": g.What, "case": p11Case{Shard: *cd.P11, Name: "m"}, "engine": engine})
+				res.Viols = append(res.Viols, b)
+			}
+		}
+		res.Pairs = setKeys(pairs)
+		res.Sample = map[string]any{"part": 11, "mem": limString(p11Mems[cd.P11.Mem]), "history": cd.P11.Hist, "host": cd.P11.Host, "pairs": len(pairs)}
 	case 6:
 		if cs.p1 == nil {
 			cs.p1 = newP1Env(cs.u)
@@ -704,6 +743,23 @@ func doReplay(file string) {
 				failed = true
 			}
 		}
+	case 11:
+		var r struct {
+			Case p11Case `json:"case"`
+		}
+		json.Unmarshal(doc.Replay, &r)
+		for _, en := range engineNames {
+			res, gv := replayP11(r.Case, en)
+			fmt.Printf("[%s] accepted=%v err=%q use=%s\n", en, res.Accepted, res.Err, res.Probe)
+			for _, g := range gv {
+				fmt.Printf("  STILL FAILS: %s: %s\n", g.Sig, g.What)
+				failed = true
+			}
+			if _, sig, what := p11Judge(r.Case, en, res); sig != "" {
+				fmt.Printf("  STILL FAILS: %s: %s\n", sig, what)
+				failed = true
+			}
+		}
 	case 6:
 		var r struct {
 			Case p1bCase `json:"case"`
@@ -837,7 +893,7 @@ func main() {
 	outcomes := fw.NewCounter()
 	samples := fw.NewSampler(16)
 	states, trans, pairs := map[uint64]struct{}{}, map[uint64]struct{}{}, map[uint64]struct{}{}
-	var p1Evals, p2Evals, p4Evals, p4Steps, p5Evals, p5Steps, p8Evals, p9Evals, p10Evals, steps, na, reads, engcmp, crashes int64
+	var p1Evals, p2Evals, p4Evals, p4Steps, p5Evals, p5Steps, p8Evals, p9Evals, p10Evals, p11Evals, steps, na, reads, engcmp, crashes int64
 	progs := map[uint64]struct{}{}
 	var flaky []string
 	stopped := false
@@ -865,6 +921,9 @@ func main() {
 			for _, h := range r.Progs {
 				progs[h] = struct{}{}
 			}
+		case 11:
+			p11Evals += r.Evals
+			p1Evals += r.Evals
 		default:
 			p1Evals += r.Evals
 		}
@@ -1052,6 +1111,8 @@ func main() {
 		if run.Thorough() {
 			lens = "<=2 element, <=3 data segments"
 		}
+		bounds["part11"] = map[string]any{"grow_histories": fmt.Sprint(p11Hists(run.Tier)), "tables": "funcref|externref x min 0..3 x max none|7 (table.grow)", "memories": "min1 | 1..8 | shared 1..8 | min0 (memory.grow, api.Memory.Grow)",
+			"import_limits": "min in {0, size-2..size+4}, max in {none, size-1, size, size+1, size+6, declmax-1, declmax, declmax+1}"}
 		bounds["part10"] = map[string]any{"features": "v1 (api.CoreFeaturesV1: all-or-nothing segments), v1+bulk-memory+reference-types, v2+threads", "owner_memory": "1 page | grown to 2 pages before the importer links", "data_shapes(bytes@offset)": names(p10DataShapes), "element_shapes(items@offset)": names(p10ElemShapes),
 			"lists": lens, "start": "none | store;unreachable", "v2_restriction": "element shapes that are out of bounds are generated for v1 only (v2: open findings of part 2)"}
 	}
@@ -1067,7 +1128,7 @@ func main() {
 		Samples: samples.List(), Exhaustive: true, Outcomes: om, Bounds: bounds,
 		Extra: map[string]any{
 			"part1_instantiations": p1Evals, "part1b_layouts": p1bLayoutNames, "part1_distinct_type_pairs": len(pairs),
-			"part2_word_executions": p2Evals, "part4_word_executions": p4Evals, "part4_steps": p4Steps, "part5_word_executions": p5Evals, "part5_steps": p5Steps, "part8_word_executions": p8Evals, "part9_evaluations": p9Evals, "part10_instantiations": p10Evals, "part10_distinct_programs": len(progs), "parts245_distinct_state_op_pairs": len(trans), "parts245_not_applicable_steps": na,
+			"part2_word_executions": p2Evals, "part4_word_executions": p4Evals, "part4_steps": p4Steps, "part5_word_executions": p5Evals, "part5_steps": p5Steps, "part8_word_executions": p8Evals, "part9_evaluations": p9Evals, "part10_instantiations": p10Evals, "part11_instantiations_after_grow_histories": p11Evals, "part10_distinct_programs": len(progs), "parts245_distinct_state_op_pairs": len(trans), "parts245_not_applicable_steps": na,
 			"parts245_reads_compared_with_model": reads, "parts245_engine_lockstep_comparisons": engcmp, "child_crashes": crashes, "watchdog_reruns": len(retry),
 			"cases": len(cases), "cases_completed": done,
 		},
